@@ -83,6 +83,16 @@ CORPUS = [
     # min_count exactly at a marginal, min_nnz exactly at a row count
     {"per": [4], "pixels": [[0, 1, 4], [0, 2, 4], [1, 2, 2], [1, 3, 6], [2, 3, 2]], "o": mk(diags=1, count=8, tol=1e-6)},
     {"per": [4], "pixels": [[0, 1, 4], [0, 2, 4], [1, 2, 2], [1, 3, 6], [2, 3, 2], [0, 0, 9]], "o": mk(diags=1, nnz=2, tol=1e-6)},
+    # float64 count column: the min_nnz filter counts NON-ZERO entries, not their values (values in (0,1), > 1 with
+    # fractions, mixed); fractional min_count thresholds
+    {"per": [5], "pixels": full_upper(5, lambda i, j: (1 + (2 * i + 3 * j) % 7) / 8), "o": mk(diags=0, nnz=3, tol=1e-6)},
+    {"per": [5], "pixels": full_upper(5, lambda i, j: (1 + (i + j) % 3) / 16), "o": mk(diags=1, nnz=2, tol=1e-8)},
+    {"per": [3, 3], "pixels": full_upper(6, lambda i, j: (3 + (i * j) % 5) / 8), "o": mk(cis=True, diags=1, nnz=1, tol=1e-6)},
+    {"per": [2, 2, 2], "pixels": full_upper(6, lambda i, j: (1 + (5 * i + j) % 6) / 8), "o": mk(trans=True, diags=0, nnz=3, tol=1e-4)},
+    {"per": [6], "pixels": full_upper(6, lambda i, j: 2 + (1 + (i + 3 * j) % 7) / 8), "o": mk(diags=2, nnz=3, count=2.5, tol=1e-6)},
+    {"per": [4, 2], "pixels": [[i, j, [0.375, 1.0, 2.625, 0.0625, 3.0][(i + 2 * j) % 5]] for i in range(6) for j in range(i, 6)],
+     "o": mk(diags=1, nnz=2, count=1.25, mad=1, tol=1e-6)},
+    {"per": [5], "pixels": full_upper(5, lambda i, j: 1 + (i + j) % 4), "o": mk(diags=1, nnz=2, count=0.5, tol=1e-6)},
     # empty chromosome (all NaN there in cis mode), isolated bin
     {"per": [3, 2], "pixels": [[0, 1, 4], [0, 2, 2], [1, 2, 5], [3, 3, 6]], "o": mk(cis=True, diags=1, tol=1e-6)},
     {"per": [3, 2], "pixels": [[0, 1, 4], [0, 2, 2], [1, 2, 5], [0, 3, 6]], "o": mk(cis=True, diags=0, tol=1e-6, x0=[1.0, None, 2.0, 0.5, 0.0])},
@@ -106,15 +116,17 @@ def nan_pattern(w):
     return [bool(x != x) for x in w]
 
 
-def model_to_groups(m):
-    """Model `out_res (balance ..)` value -> list of dict(bias [Fraction|None], scale Fraction|None, var, iters) or 'error'"""
+def model_to_groups(m, den=1):
+    """Model `out_res (balance ..)` value -> list of dict(bias [Fraction|None], scale Fraction|None, var, iters) or 'error'.
+    den: the model ran on the integer numerators count * den of a float count table; in the units of the
+    implementation the weights are unchanged, scale = model scale / den, var = model var / den^2"""
     if m is None:
         return "error"
     out = []
     for g in m[1]:
         bias = [None if v is None else Fraction(v[1][0], v[1][1]) for v in g[0]]
-        sc = None if g[1] is None else Fraction(g[1][1][0], g[1][1][1])
-        out.append({"bias": bias, "scale": sc, "var": Fraction(g[2][0], g[2][1]), "iters": g[3]})
+        sc = None if g[1] is None else Fraction(g[1][1][0], g[1][1][1]) / den
+        out.append({"bias": bias, "scale": sc, "var": Fraction(g[2][0], g[2][1]) / (den * den), "iters": g[3]})
     return out
 
 
@@ -220,6 +232,10 @@ def run(ctx):
         if len(px) < 1:
             continue
         o = G.random_opts(rng, per)
+        if rng.random() < 0.35:                     # float64 count column with dyadic fractional values
+            px = G.float_counts(rng, px)
+            if rng.random() < 0.6:
+                o["nnz"] = rng.choice([1, 2, 3])
         cases.append({"per": per, "pixels": px, "o": o})
     for cs in cases:
         cs.setdefault("chunk", rng.choice([None, None, 2, 5]))
@@ -342,7 +358,7 @@ def run(ctx):
             if not short:
                 o1["iters"] = 1
             exprs.append(f"out_res (balance {G.coq_balance_args(o1, per, pixels, chunk)})")
-            pend.append(("masks+short" if short else "masks", case, (r, o, gidx, short)))
+            pend.append(("masks+short" if short else "masks", case, (r, o, gidx, short), G.model_den(o1, pixels)))
 
         # ---------------------------------------------------------------- (a) one sweep from dyadic weights
         if ci % 2 == 0 or ci < len(CORPUS):
@@ -354,7 +370,7 @@ def run(ctx):
             oa = mk(cis=o["cis"], trans=o["trans"], diags=o["diags"], tol=o["tol"], iters=1, x0=xb, rescale=False)
             ra = G.call_balance(clr, oa, chunk, map)
             exprs.append(f"out_res (balance {G.coq_balance_args(oa, per, pixels, chunk)})")
-            pend.append(("sweep", {"per": per, "pixels": pixels, "o": oa, "chunk": chunk}, (ra, oa, gidx, True)))
+            pend.append(("sweep", {"per": per, "pixels": pixels, "o": oa, "chunk": chunk}, (ra, oa, gidx, True), G.model_den(oa, pixels)))
             counters["one_sweep"] += 1
 
         # ---------------------------------------------------------------- (b') reference trajectory tied to the model
@@ -371,7 +387,7 @@ def run(ctx):
                         xt[i] = float(v)
                 ot = mk(cis=o["cis"], trans=o["trans"], diags=o["diags"], tol=o["tol"], iters=1, x0=xt, rescale=False)
                 exprs.append(f"out_res (balance {G.coq_balance_args(ot, per, pixels, None)})")
-                pend.append(("traj", {"per": per, "pixels": pixels, "o": ot, "sweep": t}, (groups, t)))
+                pend.append(("traj", {"per": per, "pixels": pixels, "o": ot, "sweep": t}, (groups, t), G.model_den(ot, pixels)))
                 counters["sweeps_tied"] += 1
         os.remove(tmp / f"c{ci}.cool")
 
@@ -384,7 +400,7 @@ def run(ctx):
         if counters["cli"] >= (8 if thorough else 3):
             break
         per, pixels, o = cs["per"], cs["pixels"], dict(cs["o"])
-        if o["x0"] is not None or o["trans"]:
+        if o["x0"] is not None or o["trans"] or o["count"] != int(o["count"]):
             continue
         o["rescale"] = True
         n = sum(per)
@@ -424,8 +440,8 @@ def run(ctx):
 
     # ------------------------------------------------------------ model evaluation + comparison
     vals = C.coq_eval(G.IMPORTS, exprs, tmpdir=tmp / "model", shard=30, jobs=4, timeout=600)
-    for (kind, case, payload), mv in zip(pend, vals):
-        mg = model_to_groups(mv)
+    for (kind, case, payload, mden), mv in zip(pend, vals):
+        mg = model_to_groups(mv, mden)
         if kind == "traj":
             groups, t = payload
             if isinstance(mg, str) or len(mg) != len(groups):
